@@ -358,6 +358,14 @@ class Reporter:
 
     def finish(self, level: str, coverage: dict, assumptions: list[str]) -> int:
         EVID.mkdir(exist_ok=True)
+        try:
+            import sys as _sys
+            pc = _sys.modules.get("pipecheck")
+            ic = pc.impl_coverage_summary() if pc is not None else None
+            if ic is not None and isinstance(coverage, dict):
+                coverage = dict(coverage, implementation_statement_coverage=ic)
+        except Exception:  # noqa: BLE001
+            pass
         ev = {
             "property_id": self.pid,
             "tier": self.tier,
